@@ -287,9 +287,24 @@ class MindsDBLexer(Lexer):
     LESS = r'<'
     AND = r'\bAND\b'
     OR = r'\bOR\b'
-    IS_NOT = r'\bIS[\s]+NOT\b'
-    NOT_LIKE = r'\bNOT[\s]+LIKE\b'
-    NOT_IN = r'\bNOT[\s]+IN\b'
+    # the two words may be separated by blanks and comments; the value of the token is the two words
+    @_(r'\bIS(?:\s|/\*(?:[^*]|\*(?!/))*\*/|--[^\n]*\n)+NOT\b')
+    def IS_NOT(self, t):
+        t.value = ' '.join(re.sub(r'/\*[\s\S]*?\*/|--[^\n]*\n', ' ', t.value).split())
+        return t
+
+    # the two words may be separated by blanks and comments; the value of the token is the two words
+    @_(r'\bNOT(?:\s|/\*(?:[^*]|\*(?!/))*\*/|--[^\n]*\n)+LIKE\b')
+    def NOT_LIKE(self, t):
+        t.value = ' '.join(re.sub(r'/\*[\s\S]*?\*/|--[^\n]*\n', ' ', t.value).split())
+        return t
+
+    # the two words may be separated by blanks and comments; the value of the token is the two words
+    @_(r'\bNOT(?:\s|/\*(?:[^*]|\*(?!/))*\*/|--[^\n]*\n)+IN\b')
+    def NOT_IN(self, t):
+        t.value = ' '.join(re.sub(r'/\*[\s\S]*?\*/|--[^\n]*\n', ' ', t.value).split())
+        return t
+
     NOT = r'\bNOT\b'
     IS = r'\bIS\b'
     LIKE = r'\bLIKE\b'
